@@ -138,9 +138,10 @@ func runS8b(w *vh.W, c *jcase) {
 	if s.OneOK {
 		one = vh.Some(vh.Pair(vh.N(s.OneW), vh.N(uint64(s.OneN))))
 	}
-	t := fmt.Sprintf("CS8b %s %s %s %s %s %s %s %s %s %s", u64s(s.Vals),
-		optU64s(s.EAll, s.EAllOK), optU64s(s.EJw, s.EJwOK), optU64s(s.EStr, s.EStrOK), one,
-		u64s(s.DAll), u64s(s.DBytes), u64s(s.DJw), u64s(s.DStream), vh.N(uint64(s.Count)))
+	var l lets
+	t := l.wrap(fmt.Sprintf("CS8b %s %s %s %s %s %s %s %s %s %s", l.u64s(s.Vals),
+		l.optU64s(s.EAll, s.EAllOK), l.optU64s(s.EJw, s.EJwOK), l.optU64s(s.EStr, s.EStrOK), one,
+		l.u64s(s.DAll), l.u64s(s.DBytes), l.u64s(s.DJw), l.u64s(s.DStream), vh.N(uint64(s.Count))))
 	bad := false
 	for _, v := range s.Vals {
 		if v > simple8b.MaxValue {
